@@ -1182,3 +1182,122 @@ Proof.
   destruct Hpr as [-> | [-> | ->]], Hpc as [-> | [-> | ->]];
     vm_compute in HP; destruct HP as [HP _]; discriminate HP.
 Qed.
+
+(* ================================================================== the extracted spec checker is sound *)
+
+Lemma In_zr a n x : In x (zr a n) <-> a <= x < a + n.
+Proof.
+  unfold zr. rewrite in_map_iff. split.
+  - intros (i & <- & Hi). apply in_seq in Hi. lia.
+  - intros H. exists (Z.to_nat (x - a)). split; [lia|]. apply in_seq. lia.
+Qed.
+
+Lemma pick_min_spec l : forall x,
+  In (pick Qle_bool l x) (x :: l) /\ forall y, In y (x :: l) -> (pick Qle_bool l x <= y)%Q.
+Proof.
+  induction l as [|a l IH]; intros x; cbn [pick].
+  - split; [left; reflexivity|]. intros y [<-|[]]. apply Qle_refl.
+  - destruct (Qle_bool x a) eqn:E.
+    + apply Qle_bool_iff in E. destruct (IH x) as [Hin Hle]. split.
+      * destruct Hin as [Hin|Hin]; [left; exact Hin | right; right; exact Hin].
+      * intros y [<-|[<-|Hy]].
+        -- apply Hle. left. reflexivity.
+        -- eapply Qle_trans; [apply Hle; left; reflexivity | exact E].
+        -- apply Hle. right. exact Hy.
+    + assert (E' : (a <= x)%Q).
+      { apply Qlt_le_weak, Qnot_le_lt. intro H. apply Qle_bool_iff in H. congruence. }
+      destruct (IH a) as [Hin Hle]. split.
+      * destruct Hin as [Hin|Hin]; [right; left; exact Hin | right; right; exact Hin].
+      * intros y [<-|[<-|Hy]].
+        -- eapply Qle_trans; [apply Hle; left; reflexivity | exact E'].
+        -- apply Hle. left. reflexivity.
+        -- apply Hle. right. exact Hy.
+Qed.
+
+Lemma pick_max_spec l : forall x,
+  In (pick (fun a b => Qle_bool b a) l x) (x :: l) /\
+  forall y, In y (x :: l) -> (y <= pick (fun a b => Qle_bool b a) l x)%Q.
+Proof.
+  induction l as [|a l IH]; intros x; cbn [pick].
+  - split; [left; reflexivity|]. intros y [<-|[]]. apply Qle_refl.
+  - destruct (Qle_bool a x) eqn:E.
+    + apply Qle_bool_iff in E. destruct (IH x) as [Hin Hle]. split.
+      * destruct Hin as [Hin|Hin]; [left; exact Hin | right; right; exact Hin].
+      * intros y [<-|[<-|Hy]].
+        -- apply Hle. left. reflexivity.
+        -- eapply Qle_trans; [exact E | apply Hle; left; reflexivity].
+        -- apply Hle. right. exact Hy.
+    + assert (E' : (x <= a)%Q).
+      { apply Qlt_le_weak, Qnot_le_lt. intro H. apply Qle_bool_iff in H. congruence. }
+      destruct (IH a) as [Hin Hle]. split.
+      * destruct Hin as [Hin|Hin]; [right; left; exact Hin | right; right; exact Hin].
+      * intros y [<-|[<-|Hy]].
+        -- eapply Qle_trans; [exact E' | apply Hle; left; reflexivity].
+        -- apply Hle. left. reflexivity.
+        -- apply Hle. right. exact Hy.
+Qed.
+
+Section CheckerSound.
+  Variables ws marge sf rows cols : Z.
+  Variable D : Z -> Z -> option Q.
+  Variable V : Z -> Z -> Z.
+  Variables ulo uhi : Q.
+  Hypothesis Hhalf : 0 <= half ws.
+
+  Lemma win_list_In pr pc q : In q (win_list ws rows cols D V pr pc) <-> in_window ws rows cols D V pr pc q.
+  Proof.
+    unfold win_list, in_window. rewrite in_flat_map. split.
+    - intros (r & Hr & H). rewrite in_flat_map in H. destruct H as (c & Hc & H).
+      apply In_zr in Hr. apply In_zr in Hc. exists r, c.
+      destruct (valid_px rows cols D V r c) eqn:Ev; [|destruct H].
+      destruct (D r c) as [q'|] eqn:Ed; [|destruct H]. destruct H as [<-|[]].
+      repeat split; try lia.
+    - intros (r & c & Hr & Hc & Hv & Hq). exists r. split; [apply In_zr; lia|].
+      rewrite in_flat_map. exists c. split; [apply In_zr; lia|]. rewrite Hv, Hq. left. reflexivity.
+  Qed.
+
+  Lemma is_q_true o q : is_q o q = true -> exists x, o = Some x /\ (x == q)%Q.
+  Proof. destruct o as [x|]; cbn [is_q]; [|discriminate]. intros H. exists x. split; [reflexivity|]. apply Qeq_bool_iff. exact H. Qed.
+
+  Lemma prescribed_b_sound pr pc g : prescribed_b ws marge sf rows cols D V ulo uhi pr pc g = true ->
+    exists lo hi, g = (Some lo, Some hi) /\ prescribed ws marge sf rows cols D V ulo uhi pr pc lo hi.
+  Proof.
+    unfold prescribed_b, prescribed. destruct g as [g1 g2]. cbn [fst snd].
+    destruct (valid_px rows cols D V pr pc && negb (on_border ws rows cols pr pc)).
+    - destruct (win_list ws rows cols D V pr pc) as [|x l] eqn:El; cbn [pick_min pick_max]; [discriminate|].
+      intros H. apply andb_true_iff in H as [H1 H2].
+      apply is_q_true in H1 as (lo & -> & E1). apply is_q_true in H2 as (hi & -> & E2).
+      exists lo, hi. split; [reflexivity|].
+      destruct (pick_min_spec l x) as [Mi Ml]. destruct (pick_max_spec l x) as [Xi Xl].
+      rewrite <- El in Mi, Ml, Xi, Xl.
+      exists (pick Qle_bool l x), (pick (fun a b => Qle_bool b a) l x).
+      split; [|split; [|split; assumption]].
+      + split; [apply win_list_In; exact Mi|]. intros y Hy. apply Ml. apply win_list_In. exact Hy.
+      + split; [apply win_list_In; exact Xi|]. intros y Hy. apply Xl. apply win_list_In. exact Hy.
+    - intros H. apply andb_true_iff in H as [H1 H2].
+      apply is_q_true in H1 as (lo & -> & E1). apply is_q_true in H2 as (hi & -> & E2).
+      exists lo, hi. split; [reflexivity|]. split; assumption.
+  Qed.
+
+  Lemma cands_near o p : In p (cands sf o) -> near_parent sf o p.
+  Proof. unfold cands, near_parent. cbn [In]. lia. Qed.
+
+  Theorem finer_spec_bad_sound h w G :
+    finer_spec_bad ws marge sf rows cols D V ulo uhi h w G = [] ->
+    finer_spec ws marge sf rows cols D V ulo uhi h w G.
+  Proof.
+    intros Hbad r c Hr Hc. unfold finer_spec_bad in Hbad.
+    assert (Hok : pixel_ok ws marge sf rows cols D V ulo uhi G r c = true).
+    { destruct (pixel_ok ws marge sf rows cols D V ulo uhi G r c) eqn:E; [reflexivity|]. exfalso.
+      assert (In (r, c) (@nil (Z * Z))); [|auto].
+      rewrite <- Hbad. apply in_flat_map. exists r. split; [apply In_zr; lia|].
+      apply in_flat_map. exists c. split; [apply In_zr; lia|]. rewrite E. left. reflexivity. }
+    unfold pixel_ok in Hok. apply existsb_exists in Hok as (pr & Hpr & Hok).
+    apply existsb_exists in Hok as (pc & Hpc & Hok).
+    rewrite !andb_true_iff in Hok. destruct Hok as ((((B1 & B2) & B3) & B4) & HP).
+    apply Z.leb_le in B1, B3. apply Z.ltb_lt in B2, B4.
+    destruct (prescribed_b_sound pr pc _ HP) as (lo & hi & EG & P).
+    exists pr, pc, lo, hi. split; [apply cands_near; exact Hpr|]. split; [apply cands_near; exact Hpc|].
+    split; [lia|]. split; [lia|]. split; assumption.
+  Qed.
+End CheckerSound.
